@@ -118,10 +118,12 @@ def Stmt.spec : Stmt → String
   | .chain vs => String.join (vs.map render)
   | .lit s => s
 
-/-- Rendering is observationally pure: a program that renders the same values any number of times, by any
-    mix of `print`, `println`, `ToString.str` and `..`, prints for each statement the documented text of its
-    operands — the k-th rendering of a value is the same text as the first, whatever was rendered in between
-    (values, in particular strings reachable from several places, are never changed by being rendered). -/
+/-- In the model a sequence of rendering statements (`print`, `println`, `ToString.str`, `..` in any mix, over the
+    same values, any number of times) prints, statement by statement, the documented text of that statement's
+    operands.  The model has no store — its values are immutable terms — so this is what "rendering is pure"
+    means at the model level: the text of the k-th rendering cannot depend on earlier renderings.  That the
+    implementation (which does have a heap of shared string objects) behaves like this store-free model is not
+    proved here; it is what the purity stream of the correspondence checks on every run. -/
 theorem C28_rendering_is_pure (l : List Stmt) : emitAll l = String.join (l.map Stmt.spec) := by
   unfold emitAll
   congr 1
